@@ -69,7 +69,9 @@ NewUConn(env, cfgcache) ==
 
 Ok(u)        == [u |-> u, res |-> "ok",    why |-> ""]
 Err(u, w)    == [u |-> u, res |-> "err",   why |-> w]
-Panic(u, w)  == [u |-> u, res |-> "panic", why |-> w]     \* documented assertion ("tls: ... failed:")
+\* documented assertion ("tls: ... failed:"); "nilpanic" is the one the configuration asks for: a session exists, the spec
+\* has no extension for it and PreferSkipResumptionOnNilExtension is off (u_session_controller.go:126-130)
+Panic(u, w)  == [u |-> u, res |-> IF w = "nilext" THEN "nilpanic" ELSE "panic", why |-> w]
 RtPanic(u,w) == [u |-> u, res |-> "rtpanic", why |-> w]   \* runtime error
 Then(r, F(_)) == IF r.res = "ok" THEN F(r.u) ELSE r
 
@@ -199,8 +201,9 @@ DoHandshake(u, env, srv, fix) ==
        ELSE IF neg13 /\ ~v.keysOK THEN Err(v, "no-keyshare-keys")
        ELSE IF neg13 /\ v.helloPsk # "none" /\ ~pskOnWire THEN Err(v, "psk-not-sent")
        ELSE IF neg13 /\ srv.hrr /\ v.helloPsk # "none" THEN
-               (IF v.hsSess = "none" THEN RtPanic(v, "hrr-fake-psk-nil-session")
-                ELSE IF fix.d9 THEN Ok(done) ELSE Err(v, "hrr-psk"))
+               \* as coded: a PSK in the hello stops at the HelloRetryRequest (D9); identities without a session
+               \* (FakePreSharedKeyExtension) dereference the nil session first
+               (IF fix.d9 THEN Ok(done) ELSE IF v.hsSess = "none" THEN RtPanic(v, "hrr-fake-psk-nil-session") ELSE Err(v, "hrr-psk"))
        ELSE Ok(done))
 Resumed(u, env, srv) ==
   LET neg13 == srv.max = 772 /\ env.max = 772
@@ -224,7 +227,7 @@ RECURSIVE RunFrom(_,_,_,_,_,_)
 RunFrom(u, ops, i, env, srv, fix) ==
   IF i > Len(ops) THEN [u |-> u, res |-> <<>>]
   ELSE LET r == Call(u, ops[i], env, srv, fix) IN
-       IF r.res \in {"panic", "rtpanic"} THEN [u |-> r.u, res |-> <<r.res>>]
+       IF r.res \in {"panic", "rtpanic", "nilpanic"} THEN [u |-> r.u, res |-> <<r.res>>]
        ELSE LET rest == RunFrom(r.u, ops, i + 1, env, srv, fix) IN [u |-> rest.u, res |-> <<r.res>> \o rest.res]
 Run(ops, env, srv, cfgcache, fix) == RunFrom(NewUConn(env, cfgcache), ops, 1, env, srv, fix)
 
@@ -287,8 +290,9 @@ MechLegalOK(ops, env, srv, cfgcache, fix) ==
   LET r == Run(ops, env, srv, cfgcache, fix)
       inj == Injection(ops)
       neg13 == srv.max = 772 /\ env.max = 772 IN
-  /\ Len(r.res) = Len(ops) /\ \A i \in DOMAIN r.res : r.res[i] = "ok"
-  /\ HasHandshake(ops) =>
+  /\ \/ Len(r.res) = Len(ops) /\ \A i \in DOMAIN r.res : r.res[i] = "ok"
+     \/ ~env.skip /\ r.res[Len(r.res)] = "nilpanic" /\ \A i \in 1..(Len(r.res)-1) : r.res[i] = "ok"
+  /\ (HasHandshake(ops) /\ Len(r.res) = Len(ops) /\ r.res[Len(r.res)] = "ok") =>
        /\ inj = "init" => r.u.wireTkt = "B" /\ (~neg13 /\ srv.canB => Resumed(r.u, env, srv))
        /\ inj = "real" => r.u.wirePsk = "B" /\ (neg13 /\ srv.canB => Resumed(r.u, env, srv))
        /\ inj = "fake" => r.u.wirePsk = "F"
@@ -298,7 +302,7 @@ MechForbiddenOK(ops, env, srv, cfgcache, fix) ==
   LET r == Run(ops, env, srv, cfgcache, fix)
       i == FirstBad(ops, env, cfgcache) IN
   /\ \A j \in DOMAIN r.res : r.res[j] # "rtpanic"
-  /\ \E j \in DOMAIN r.res : j >= i /\ r.res[j] \in {"err", "panic"}
+  /\ \E j \in DOMAIN r.res : (j >= i /\ r.res[j] \in {"err", "panic"}) \/ r.res[j] = "nilpanic"
 MechUnspecOK(ops, env, srv, cfgcache, fix) ==
   LET r == Run(ops, env, srv, cfgcache, fix) IN \A j \in DOMAIN r.res : r.res[j] # "rtpanic"
 MechOK(ops, env, srv, cfgcache, fix) ==
@@ -352,7 +356,7 @@ C19ModelOK(hist, outs, offs, pre) ==
     /\ offs[i] \in {"tkt", "psk"} => pre[i].name = hist[i].name
 
 \* ================================================================ Part 4: judgement of recorded connections
-OpRes(o) == IF o.res = "panic" THEN (IF o.rterr THEN "rtpanic" ELSE IF DocPanicMsg(o.msg) THEN "panic" ELSE "otherpanic") ELSE o.res
+OpRes(o) == IF o.res = "panic" THEN (IF o.rterr THEN "rtpanic" ELSE IF NilExtPanicMsg(o.msg) THEN "nilpanic" ELSE IF DocPanicMsg(o.msg) THEN "panic" ELSE "otherpanic") ELSE o.res
 ObsRes(ev) == [i \in DOMAIN ev.ops |-> OpRes(ev.ops[i])]
 WTicket(h) == IF HasExtT(h, 35) THEN ExtBody(h, 35) ELSE <<>>
 PskForm(h) == h.exts[Len(h.exts)].type = 41 /\ ValidBody(41, ExtBody(h, 41))
@@ -378,9 +382,11 @@ C20Prefix(cd, env, ev) ==
       r == ObsRes(ev)  inj == Injection(ops)
       given == IF inj = "none" THEN [set |-> FALSE, ticket |-> <<>>, pskid |-> <<>>, binder |-> <<>>] ELSE ev.ops[InjectionAt(ops)].given
       neg13 == cd.srv.max = 772 /\ env.max = 772
-      bad == {i \in 1..n : r[i] # "ok"} IN
-  IF bad # {} THEN LET i == CHOOSE i \in bad : \A j \in bad : i <= j IN
-                   (IF r[i] = "rtpanic" THEN "runtime-panic" ELSE IF r[i] \in {"panic", "otherpanic"} THEN "legal-call-panicked" ELSE IF ops[i].op = "Handshake" THEN "legal-handshake-failed" ELSE "legal-call-failed")
+      bad == {i \in 1..n : r[i] # "ok"}
+      asked == {i \in 1..n : r[i] = "nilpanic" /\ ~env.skip} IN
+  IF bad # {} /\ bad = asked THEN "ok"      \* the documented exception for a missing extension ends the sequence
+  ELSE IF bad # {} THEN LET i == CHOOSE i \in bad : \A j \in bad : i <= j IN
+                   (IF r[i] = "rtpanic" THEN "runtime-panic" ELSE IF r[i] \in {"panic", "otherpanic", "nilpanic"} THEN "legal-call-panicked" ELSE IF ops[i].op = "Handshake" THEN "legal-handshake-failed" ELSE "legal-call-failed")
   ELSE IF ~HasHandshake(ops) THEN "ok"
   ELSE IF ~ev.hs_ok \/ ~ev.s_ok \/ Len(ev.hellos) = 0 THEN "legal-handshake-failed"
   ELSE LET h == ParseHello(ev.hellos[1]) IN
@@ -396,7 +402,7 @@ C20Prefix(cd, env, ev) ==
 C20Forbidden(cd, env, ev) ==
   LET r == ObsRes(ev)  i == FirstBad(cd.ops, env, cd.cfgcache) IN
   IF \E j \in DOMAIN r : r[j] = "otherpanic" THEN "undocumented-panic"
-  ELSE IF \E j \in DOMAIN r : j >= i /\ r[j] \in {"err", "panic"} THEN "ok"
+  ELSE IF \E j \in DOMAIN r : (j >= i /\ r[j] \in {"err", "panic"}) \/ r[j] = "nilpanic" THEN "ok"
   ELSE "forbidden-accepted"
 C20Why(cd, env, ev) ==
   LET u == Universal(ev)  c == SeqClass(cd.ops, env, cd.cfgcache)  p == C20Prefix(cd, env, ev) IN
@@ -436,7 +442,7 @@ C19Why(cd, k, pcd, pev, cacheM, ev) ==
   ELSE IF w2 # "ok" THEN w2
   ELSE IF \E i \in DOMAIN r : r[i] = "otherpanic" THEN "undocumented-panic"
   ELSE IF nilext /\ cd.spec.custom /\ ~cd.spec.skipnil THEN "ok"           \* the documented exception, asked for by the configuration
-  ELSE IF \E i \in DOMAIN r : r[i] = "panic" THEN "assertion-panic"
+  ELSE IF \E i \in DOMAIN r : r[i] \in {"panic", "nilpanic"} THEN "assertion-panic"
   \* ctl_ok: the same connection works with an empty cache, i.e. parrot, configuration and server are compatible
   ELSE IF ev.ctl_ok /\ ~(ev.hs_ok /\ ev.s_ok) THEN (IF ev.hs_ok THEN "server-aborted" ELSE "handshake-broken-by-cache")
   ELSE IF k > 1 /\ ev.ctl_ok /\ SameConn(cd, pcd) /\ pev.hs_ok /\ pev.s_ok /\ NeedExt(cd) /\ ~(ev.hs_ok /\ ev.c_resumed /\ ev.s_resumed) THEN "not-resumed"
